@@ -4,7 +4,9 @@ Tie between model and source
 * `Gen.kindTable` (regenerated on every run from the live `_is_categorical` of the pandas materializer, the
   narwhals materializer on a pandas frame and on a pyarrow table): `Props.C05.kind_tables_agree` is decided over it.
 * stream `outputs`: a formula/data generator (text, categorical, numeric, bool columns of several dtypes, nulls,
-  interactions, `C(...)` with contrasts, a transform from the context mapping, literal scalings) x
+  interactions, `C(...)` with contrasts, a transform from the context mapping, literal scalings, Python factors whose
+  value is a scalar (`{7}`, `x.max()`, `len(x)`, `I(1)`, `np.float32(2.5)`, a context function returning a float) or a
+  plain list (`{[..]}`, `sorted(x)`, `list(x)`) — alone, scaled and in interactions) x
   {pandas, numpy, sparse} x {pandas materializer, narwhals on the pandas frame, narwhals on the pyarrow table}
   x {top-level function, formula method, model-spec method with/without overrides, materializer method}
   x null policies. All variants of one case must produce the same value matrix and the same
@@ -60,6 +62,7 @@ REQUIRED_THEOREMS = [
     "sparse_encode",
     "sparse_hstack",
     "sparse_refines_dense",
+    "scalar_factor_is_constant_column",
     "registration_closed_form",
     "for_materializer_spec",
     "for_data_first_candidate",
@@ -125,11 +128,26 @@ ASSUMPTIONS = [
     "for_data_* hold for every registry, data record and set order",
     "the class `for_data` picks is looked up again by its REGISTER_NAME in the plumbing model (`Call.dataMat`): exact for classes "
     "registered under their own name (every class of the live registry, checked by `live_registry_reproduced`)",
+    "scalar_factor_is_constant_column / the `.scalar` source of the column model: the scalar is a number (not null: `find_nulls` "
+    "rejects a null constant before encoding) and `nrows` is the number of retained rows; a 0-d numpy array as factor value "
+    "(`np.array(5.0)`) is rejected by `as_columns` on every route (IndexError) and is not generated",
+    "observed differences OUTSIDE the modelled routes (reviewers' demonstrations, not generated, not findings of this check): "
+    "(d2) the stateful transform `lag` has no narwhals registration: `x + lag(x)` works under the pandas materializer and raises "
+    "FactorEvaluationError [NotImplementedError: no `shift` for narwhals Series] under the narwhals materializer (pandas or "
+    "pyarrow input); (d5) columns of a dtype outside the generated kind table — datetime64 / timedelta64 and pandas Sparse / "
+    "complex (narwhals `Unknown`) — are numerical for the pandas materializer (datetime then raises UFuncTypeError) and "
+    "categorical for the narwhals materializer; (d7) `hashed(s, levels=k)` hashes the backend's text of a null cell (`nan` on "
+    "pandas input, `None` on pyarrow input), so a null row lands in different buckets; (d8) a nullable integer column with a null "
+    "(`Int64` / arrow int64) becomes float64 in `narwhals_series_to_pandas` on pyarrow input, so `C(k)` names its levels `2.0` "
+    "there and `2` on pandas input (numbers equal, names differ). The `outputs` stream uses float64/int64/bool/text columns and "
+    "the transforms named in RULE only",
 ]
 RULE = (
     "outputs: frames of 1-6 rows (quick; up to 30 thorough) with 1-2 text/categorical columns (object, str, string[pyarrow], "
     "category with declared order and unused categories), 1-2 numeric columns (float64/int64, dyadic values), a bool column, "
-    "nulls in 30% of the cases; formulas of 1-4 terms over names, C(x[, contr.*]), I(), a context function, interactions up "
+    "nulls in 30% of the cases; formulas of 1-4 terms over names, C(x[, contr.*]), I(), a context function, in 16% of the "
+    "numeric atoms a Python factor whose value is a scalar ({7}, {1.5}, {-4}, {True}, I(1), len(x), np.float32(2.5), np.int64(6), "
+    "x.max(), x.min(), {x.max() - x.min()}, top(x)) or a list with one number per row ({[..]}, sorted(x), list(x)), interactions up "
     "to degree 3, literal scalings, intercept on/off; x ensure_full_rank x na_action x cluster_by; 9 output/materializer "
     "variants through the top-level function, the same data as dict of columns / dict of scalars (1 row) / record array / "
     "narwhals frame (stable-v1 and main namespace, on pandas and on pyarrow) dispatched by the registry, output='narwhals' on "
@@ -158,7 +176,8 @@ RULE = (
     "with specs trained part by part; 3 outputs x {specs method, top-level function, method with overrides, pandas materializer, "
     "narwhals materializer} + the per-part reference. "
     "wrapper: 0-4 copy/deepcopy/pickle operations on a matrix of each output type, 0-3 leaves offered to ModelMatrices/ModelSpecs. "
-    "sparseops: random sparse/dense columns of 0-7 rows, 1-3 factors per term, 1-3 terms. "
+    "sparseops: random sparse/dense columns of 0-7 rows, 1-3 factors per term (numeric array 38%, scalar 12% as Python int / float "
+    "/ numpy scalar, plain list 8%, categorical 50%), 1-3 terms. "
     "non-trivial = outputs case with an interaction or a categorical column, reuse case with two different calls, entry case "
     "with a structured spec or overrides, registry case with two extra classes or the sweep, every relabel case, wrapper case with "
     "two operations or leaves, sparseops case with at least two factors; distinct by canonical JSON"
@@ -206,7 +225,12 @@ def arr3(v):
     return numpy.asarray(v.to_numpy(), dtype=float).reshape((-1, 1, 1))
 
 
-CONTEXT = {"dbl": dbl, "arr1": arr1, "arr2": arr2, "arr3": arr3}
+def top(v):
+    """a context function that returns a plain Python float: the largest non-null value of the column"""
+    return float(max(x for x in v.to_list() if x is not None and x == x))
+
+
+CONTEXT = {"dbl": dbl, "arr1": arr1, "arr2": arr2, "arr3": arr3, "top": top, "np": numpy}
 
 # ----------------------------------------------------------------------------- recording
 
@@ -806,9 +830,32 @@ def gen_atom(rng, cols):
         return "t"
     v = rng.choice(nums)
     w = rng.choice(nums)
+    if rng.random() < 0.16:
+        return gen_const_atom(rng, cols, v)
     if rng.random() < 0.18:
         return rng.choice([f"arr2({v})", f"arr2({v})", f"arr1({w})", f"arr2({v})" if rng.random() < 0.8 else f"arr3({v})"])
     return rng.choice([v, v, f"I({v} + 1)", f"dbl({v})", f"I({v} * {w})", f"{{{v} - {w}}}"])
+
+
+def gen_const_atom(rng, cols, v):
+    """a Python factor whose VALUE is not a column of the data: a scalar (Python int / float, numpy scalar — a NUMERICAL
+    factor that stands for a column holding it in every row) or a plain list with one number per row. The literals avoid
+    2, 0.5 and 3 (the scalings of `gen_formula`: a factor is identified by its text, `{3}` and `3` would be one factor)."""
+    vals = cols[v]["vals"]
+    nrows = len(vals)
+    full = all(x is not None for x in vals)
+    some = any(x is not None for x in vals)
+    pool = ["{7}", "{1.5}", "{-4}", "I(1)", f"len({v})", "np.float32(2.5)", "np.int64(6)", "{True}"]
+    if some:
+        # an aggregate of the column: numpy scalar (pandas), Python scalar (narwhals); nulls are skipped on every route
+        pool += [f"{v}.max()", f"{v}.min()", f"{{{v}.max() - {v}.min()}}", f"top({v})"]
+    lit = ", ".join(str(float(Fraction(rng.randint(-8, 8), rng.choice([1, 2, 4])))) if rng.random() < 0.6 else str(rng.randint(-5, 5))
+                    for _ in range(nrows))
+    pool += [f"{{[{lit}]}}", f"{{[{lit}]}}"]
+    if full:
+        # lists computed from the column (without nulls: `sorted` over NaN / None is not an order)
+        pool += [f"sorted({v})", f"list({v})"]
+    return rng.choice(pool)
 
 
 def gen_formula(rng, cols):
@@ -2026,7 +2073,16 @@ def gen_sparse_case(rng):
             factors = []
             for _ in range(rng.randint(1, 3)):
                 k += 1
-                if rng.random() < 0.5:
+                q = rng.random()
+                if q < 0.12:
+                    # a NUMERICAL factor whose value is a scalar (`x.max()`, `len(x)`, `{7}`): Python int / float, numpy scalar
+                    val = fstr(Fraction(rng.randint(-6, 6), rng.choice([1, 1, 2])))
+                    as_ = rng.choice(["float", "numpy", "int"]) if Fraction(val).denominator == 1 else rng.choice(["float", "numpy"])
+                    factors.append(dict(t="scalar", name=f"f{k}", val=val, nrows=n, **{"as": as_}))
+                elif q < 0.2:
+                    # ... a plain list with one number per row (`sorted(x)`, `{[5, 6, 7]}`): the same column as an array
+                    factors.append(dict(t="num", name=f"f{k}", vals=gen_col(rng, n, rng.choice([0.3, 0.8, 1.0])), as_list=True))
+                elif q < 0.5:
                     factors.append(dict(t="num", name=f"f{k}", vals=gen_col(rng, n, rng.choice([0.3, 0.8, 1.0]))))
                 else:
                     pool = rng.choice(LEVEL_POOLS)
@@ -2084,6 +2140,7 @@ class _Spec:
 def impl_sparse(c):
     import scipy.sparse as sp
     from formulaic.materializers import NarwhalsMaterializer, PandasMaterializer
+    from formulaic.materializers.types import FactorValues
     from formulaic.utils.sparse import categorical_encode_series_to_sparse_csc_matrix
 
     op = c["op"]
@@ -2128,8 +2185,15 @@ def impl_sparse(c):
                         continue
                     factors = []
                     for f in t["factors"]:
-                        if f["t"] == "num":
-                            enc = mzr._encode_numerical(_arr(f["vals"]), None, {}, _Spec(output), [])
+                        if f["t"] == "scalar":
+                            # as `_encode_evaled_factor` hands it over: the evaluated value inside its FactorValues wrapper
+                            fr = Fraction(f["val"])
+                            v = {"float": float(fr), "numpy": numpy.float64(float(fr)), "int": int(fr)}[f["as"]]
+                            enc = mzr._encode_numerical(FactorValues(v, kind="numerical"), None, {}, _Spec(output), [])
+                            factors.append({f["name"]: enc})
+                        elif f["t"] == "num":
+                            vals = FactorValues([float(Fraction(v)) for v in f["vals"]], kind="numerical") if f.get("as_list") else _arr(f["vals"])
+                            enc = mzr._encode_numerical(vals, None, {}, _Spec(output), [])
                             factors.append({f["name"]: enc})
                         else:
                             # as the materializers do: encode at full rank, then delete the first level's entry
@@ -2410,13 +2474,14 @@ def classify(c, o, why):
 
 
 LEVEL_TEXT = (
-    "Proof: Lean theorems (Props/C05.lean, 29). (0) The property on the model as ONE statement: for every environment, call "
+    "Proof: Lean theorems (Props/C05.lean, 30). (0) The property on the model as ONE statement: for every environment, call "
     "record and formula content, any two output types asked through any two entry points (top-level function, formula method, "
     "model-spec / model-specs method with or without overrides, materializer method) give, request by request and part by part, "
     "the same column names in the same order and the same numbers whenever both succeed (`same_numbers_any_output_any_entry`), "
     "composed of: (1) for ALL columns and sizes the sparse column operations (csc_matrix(dense), multiply, scalar scaling, the "
     "sparse dummy encoder, hstack into CSC arrays) denote the dense ones and the whole sparse pipeline equals the numpy pipeline "
-    "column for column and name for name; (2) for ALL call records every pair of entry points hands the same request to "
+    "column for column and name for name (a scalar-valued numerical factor included: it is the constant column under every output, "
+    "alone, scaled and times a numeric column — `scalar_factor_is_constant_column`); (2) for ALL call records every pair of entry points hands the same request to "
     "FormulaMaterializer.get_model_matrix (identical, `drop_rows` object included, when both forwarding flags probed on the live "
     "code are set), they fail together, same context layering; the requested output type only changes the `output` field of the "
     "prepared leaves. (3) The materializer registry: `__register_implementation__` in closed form for any creation history "
